@@ -278,12 +278,17 @@ Inductive rK : list token -> list token -> Prop :=
 | rK_br l l1 l2 : R gBracket l l1 -> rK l1 l2 -> rK l l2.
 
 Lemma rK_trans a b c : rK a b -> rK b c -> rK a c.
-Proof. induction 1; intros; [assumption| | |]; econstructor; eauto. Qed.
+Proof.
+  induction 1; intros; [assumption| | |].
+  - eapply rK_bin; eauto.
+  - eapply rK_sub; eauto.
+  - eapply rK_br; eauto.
+Qed.
 
 (* closure: an expression followed by a continuation is an expression *)
 Lemma rK_E : forall l l', rK l l' -> forall l0, R gE l0 l -> R gE l0 l'.
 Proof.
-  induction 1; intros l0 H0; [assumption| | |].
+  induction 1; intros l0 HH; [assumption| | |].
   - apply IHrK. eapply rE_binary; eassumption.
   - apply IHrK. eapply rE_sub; eassumption.
   - apply IHrK. eapply rE_index; eassumption.
@@ -393,4 +398,226 @@ Section Sound.
   (* ---- automation ---- *)
   Lemma hd_tok l k : ttyp (hd tEnd l) = k -> k <> TEnd -> exists t l', l = t :: l' /\ ttyp t = k.
   Proof. destruct l as [|t l']; cbn; [congruence|eauto]. Qed.
+
+  Definition ST {A} (Q : list token -> Prop) (r : A * pst) : Prop :=
+    exists l', AT l' (snd r) /\ Q l'.
+
+  Ltac normE E :=
+    try apply negb_is_false in E; try apply is_true in E;
+    try rewrite ct_mk in E; try rewrite nt_mk in E; cbn [hd tl] in E.
+
+  Ltac tok E :=
+    lazymatch type of E with
+    | ttyp (hd tEnd ?L) = _ =>
+        is_var L;
+        let t := fresh "t" in let l := fresh "l" in
+        destruct L as [|t l]; [cbn in E; discriminate E | cbn [hd tl] in *]
+    | _ => idtac
+    end.
+
+  Ltac branch E := normE E; try tok E; try congruence.
+
+  Ltac unpack a HH :=
+    lazymatch type of HH with
+    | AT _ _ => destruct HH as [-> ?]; cbn [tl] in *
+    | ST _ _ =>
+        let x := fresh "x" in let l := fresh "l" in let Hv := fresh "Hv" in let HQ := fresh "HQ" in
+        destruct a as [x ?]; destruct HH as (l & [Hs Hv] & HQ); cbn [fst snd] in Hs; subst;
+        repeat match goal with y : (_ * _)%type |- _ => destruct y end
+    | True => clear HH
+    | _ => idtac
+    end.
+
+  Ltac callee := fail.
+
+  Ltac leaf :=
+    cbn [opost]; unfold ST; cbn [fst snd];
+    eexists; split; [split; [reflexivity|assumption]|].
+
+  Ltac go :=
+    repeat first
+    [ progress cbn [bind]
+    | match goal with
+      | |- opost _ (Err _) => exact I
+      | |- opost _ (Panic _) => exact I
+      | |- opost _ OutOfFuel => exact I
+      | |- opost (ST _) (Ok _) => leaf
+      | |- opost _ (bind (bind _ _) _) => rewrite bind_assoc
+      | |- opost _ (bind (if ?c then _ else _) _) =>
+          let E := fresh "E" in destruct c eqn:E; branch E
+      | |- opost _ (bind (match ?x with _ => _ end) _) =>
+          let E := fresh "E" in destruct x eqn:E; branch E
+      | |- opost _ (if ?c then _ else _) =>
+          let E := fresh "E" in destruct c eqn:E; branch E
+      | |- opost _ (match ?x with _ => _ end) =>
+          let E := fresh "E" in destruct x eqn:E; branch E
+      | |- opost _ (bind _ _) =>
+          eapply opost_bind;
+          [ callee
+          | let a := fresh "a" in let HH := fresh "HH" in intros a HH; unpack a HH ]
+      | |- opost (ST _) _ =>
+          eapply opost_mono;
+          [ callee
+          | let a := fresh "a" in let HH := fresh "HH" in intros a HH; unpack a HH; leaf ]
+      end ].
+
+  Ltac callee ::=
+    first [ apply advance_post; assumption
+          | apply advance2_post; assumption
+          | match goal with
+            | |- opost _ (parse_quoted_identifier _) => apply opost_triv
+            | |- opost _ (parse_json_literal _) => apply opost_triv
+            end ].
+
+  Create HintDb gram.
+  Hint Resolve rOptNum_none rOptNum_some rSlice_2 rSlice_3 rBracket_index rBracket_slice : gram.
+
+  (* parser.index: the inside of "[" ... "]" is a number or a slice *)
+  Definition IDX (l l' : list token) : Prop :=
+    forall o, ttyp o = TOpenSqBrace -> R gBracket (o :: l) l'.
+
+  Lemma index_post child l : valid l -> opost (ST (IDX l)) (index child (mkst l)).
+  Proof.
+    intros Hv. unfold index, unexpected_curr, unexpected_next. cbv zeta. go.
+    all: intros o Ho.
+    all: eauto 8 with gram.
+  Qed.
+
+  (* ---- one level of the recursion ---- *)
+  Definition RUN (c : pcall) (l : list token) (r : option node * pst) : Prop :=
+    match c with
+    | CExpr _ => ST (EX l) r
+    | CCont _ _ => ST (rK l) r
+    end.
+
+  Section Level.
+    Variable rec : pcall -> pst -> outcome (option node * pst).
+    Variable f : nat.
+    Hypothesis Hrec : forall c l, valid l -> opost (RUN c l) (rec c (mkst l)).
+
+    Lemma expr_post_full p l : valid l -> opost (ST (EX l)) (expr rec p (mkst l)).
+    Proof.
+      intros Hv. unfold expr. eapply opost_bind; [apply (Hrec (CExpr p)); assumption|].
+      intros [[n|] st'] H; cbn [opost]; [|exact I].
+      destruct H as (l' & H1 & H2). exists l'. split; assumption.
+    Qed.
+
+    Lemma expr_post p l : valid l -> opost (ST (R gE l)) (expr rec p (mkst l)).
+    Proof.
+      intros Hv. eapply opost_mono; [apply expr_post_full; assumption|].
+      intros a (l' & H1 & H2). exists l'. split; [assumption|apply EX_E; assumption].
+    Qed.
+
+    Lemma rec_cont n p l : valid l -> opost (ST (rK l)) (rec (CCont n p) (mkst l)).
+    Proof. intros Hv. apply (Hrec (CCont n p)). assumption. Qed.
+
+    Ltac callee ::=
+      first [ apply advance_post; assumption
+            | apply advance2_post; assumption
+            | apply expr_post; assumption
+            | apply rec_cont; assumption
+            | apply index_post; assumption
+            | match goal with
+              | |- opost _ (parse_quoted_identifier _) => apply opost_triv
+              | |- opost _ (parse_json_literal _) => apply opost_triv
+              end ].
+
+    Lemma projection_post p l : valid l -> opost (ST (rK l)) (projection rec p (mkst l)).
+    Proof.
+      intros Hv. unfold projection.
+      assert (N : opost (ST (rK l)) (Ok (@None node, mkst l))).
+      { exists l. split; [split; [reflexivity|assumption]|apply rK_nil]. }
+      destruct (ct (mkst l)); try exact N.
+      all: match goal with |- opost _ (if ?c then _ else _) => destruct c; [|exact N] end.
+      all: apply rec_cont; assumption.
+    Qed.
+
+    (* parser.filter: expression "]" *)
+    Definition FLT (l l' : list token) : Prop :=
+      exists c, R gE l (c :: l') /\ ttyp c = TCloseSqBrace.
+
+    Lemma filter_post l : valid l -> opost (ST (FLT l)) (filter rec (mkst l)).
+    Proof.
+      intros Hv. unfold filter, unexpected_curr. go. eexists; split; eassumption.
+    Qed.
+
+    Ltac callee ::=
+      first [ apply advance_post; assumption
+            | apply advance2_post; assumption
+            | apply expr_post; assumption
+            | apply rec_cont; assumption
+            | apply index_post; assumption
+            | apply projection_post; assumption
+            | apply filter_post; assumption
+            | match goal with IH : forall _, _ |- _ => apply IH; assumption end
+            | match goal with
+              | |- opost _ (parse_quoted_identifier _) => apply opost_triv
+              | |- opost _ (parse_json_literal _) => apply opost_triv
+              end ].
+
+    (* after "[": expression *( "," expression ) "]" *)
+    Definition LST (l l' : list token) : Prop :=
+      exists c, R gEs l (c :: l') /\ ttyp c = TCloseSqBrace.
+    Lemma LST_one l c l' : R gE l (c :: l') -> ttyp c = TCloseSqBrace -> LST l l'.
+    Proof. intros. exists c. split; [apply rEs_one|]; assumption. Qed.
+    Lemma LST_cons l c l1 l' : R gE l (c :: l1) -> ttyp c = TComma -> LST l1 l' -> LST l l'.
+    Proof. intros H1 H2 (c' & H3 & H4). exists c'. split; [eapply rEs_cons; eassumption|assumption]. Qed.
+
+    Lemma select_array_loop_post : forall k child fields l, valid l ->
+      opost (ST (LST l)) (select_array_loop rec k child fields (mkst l)).
+    Proof.
+      induction k as [|k IH]; intros child fields l Hv; [exact I|].
+      cbn [select_array_loop]. unfold unexpected_curr. go.
+      all: eauto using LST_one, LST_cons.
+    Qed.
+
+    (* after "{": keyval-expr *( "," keyval-expr ) "}" *)
+    Definition HSH (l l' : list token) : Prop :=
+      exists c, R gKVs l (c :: l') /\ ttyp c = TCloseBrace.
+    Lemma HSH_one k c l e l' :
+      ident_t (ttyp k) = true -> ttyp c = TColon -> R gE l (e :: l') -> ttyp e = TCloseBrace ->
+      HSH (k :: c :: l) l'.
+    Proof. intros. exists e. split; [apply rKVs_one, rKV_intro|]; assumption. Qed.
+    Lemma HSH_cons k c l e l1 l' :
+      ident_t (ttyp k) = true -> ttyp c = TColon -> R gE l (e :: l1) -> ttyp e = TComma -> HSH l1 l' ->
+      HSH (k :: c :: l) l'.
+    Proof.
+      intros H1 H2 H3 H4 (c' & H5 & H6). exists c'. split; [|assumption].
+      eapply rKVs_cons; [apply rKV_intro; eassumption|assumption|assumption].
+    Qed.
+    Lemma ident_q t : ttyp t = TQuotedIdentifier -> ident_t (ttyp t) = true.
+    Proof. intros ->. reflexivity. Qed.
+    Lemma ident_u t : ttyp t = TUnquotedIdentifier -> ident_t (ttyp t) = true.
+    Proof. intros ->. reflexivity. Qed.
+
+    Lemma select_object_loop_post : forall k child fields l, valid l ->
+      opost (ST (HSH l)) (select_object_loop rec k child fields (mkst l)).
+    Proof.
+      induction k as [|k IH]; intros child fields l Hv; [exact I|].
+      cbn [select_object_loop]. unfold unexpected_curr, unexpected_next. go.
+      all: eauto using HSH_one, HSH_cons, ident_q, ident_u.
+    Qed.
+
+    (* after "let": bindings "in" *)
+    Definition BND (l l' : list token) : Prop :=
+      exists i, R gBindings l (i :: l') /\ ttyp i = TIn.
+    Lemma BND_one v a l i l' :
+      ttyp v = TVariable -> ttyp a = TAssign -> R gE l (i :: l') -> ttyp i = TIn -> BND (v :: a :: l) l'.
+    Proof. intros. exists i. split; [apply rBindings_one|]; assumption. Qed.
+    Lemma BND_cons v a l c l1 l' :
+      ttyp v = TVariable -> ttyp a = TAssign -> R gE l (c :: l1) -> ttyp c = TComma -> BND l1 l' ->
+      BND (v :: a :: l) l'.
+    Proof.
+      intros H1 H2 H3 H4 (i & H5 & H6). exists i. split; [|assumption].
+      eapply rBindings_cons; eassumption.
+    Qed.
+
+    Lemma let_loop_post : forall k vars l, valid l ->
+      opost (ST (BND l)) (let_loop rec k vars (mkst l)).
+    Proof.
+      induction k as [|k IH]; intros vars l Hv; [exact I|].
+      cbn [let_loop]. unfold unexpected_curr, unexpected_next. cbv zeta. go.
+      all: eauto using BND_one, BND_cons.
+    Qed.
+  End Level.
 End Sound.
